@@ -57,6 +57,11 @@ def emit_guards(w, src, must):
     req = bool(re.search(r"if via\.is_empty\(\)\s*\{\s*return Err", ext))
     w("(* BaseHeaders::extract_from rejects a message without a usable Via before do_receive indexes via[0] (sip-core/src/lib.rs) *)")
     w("Definition base_requires_via : bool := %s." % ("true" if req else "false"))
+    d = src("crates/sip-core/src/transport/streaming/decode.rs")
+    saved = bool(re.search(r"let content_len = self\.content_len;", d)) and bool(re.search(r"src_bytes\.slice\(head_end\.\.head_end \+ content_len\)", d)) \
+        and not re.search(r"let content_len = headers", d)
+    w("(* the stream decoder slices the body with the length its first pass saved, not with a value decoded again from the headers *)")
+    w("Definition stream_body_len_saved : bool := %s." % ("true" if saved else "false"))
     w("")
 
 
